@@ -32,7 +32,7 @@ func (b vC18Bit) String() string {
 	return fmt.Sprintf("(%d,%d,%s,%s)", b.Row, b.Col, ts, p)
 }
 
-// vgtGenStamp draws a timestamp (whole minutes) in 2018..2022, biased to calendar edges, optionally near an anchor.
+// vgtGenStamp draws a timestamp (whole minutes) in 2019..2021 (+-2 units around earlier stamps), biased to calendar edges, optionally near an anchor.
 func vgtGenStamp(t *rapid.T, label string, anchors []time.Time) time.Time {
 	if len(anchors) > 0 && rapid.IntRange(0, 2).Draw(t, label+".near") > 0 {
 		a := anchors[rapid.IntRange(0, len(anchors)-1).Draw(t, label+".anchor")]
@@ -40,7 +40,7 @@ func vgtGenStamp(t *rapid.T, label string, anchors []time.Time) time.Time {
 		k := rapid.IntRange(-2, 2).Draw(t, label+".dk")
 		return vgtAdd(vgtTrunc(a, 'H'), u, k)
 	}
-	y := rapid.IntRange(2018, 2022).Draw(t, label+".y")
+	y := rapid.IntRange(2019, 2021).Draw(t, label+".y")
 	m := rapid.SampledFrom([]int{1, 2, 2, 3, 6, 11, 12, 12}).Draw(t, label+".m")
 	dim := vgtDate(y, time.Month(m)+1, 0, 0).Day()
 	d := rapid.SampledFrom([]int{1, 2, 15, 28, dim - 1, dim}).Draw(t, label+".d")
@@ -130,8 +130,17 @@ func TestVerifC18_API(t *testing.T) {
 			l := fmt.Sprintf("r%d", qi)
 			var from, to time.Time
 			switch rapid.IntRange(0, 3).Draw(t, l+".kind") {
-			case 0: // whole span
-				from, to = vgtDate(2017, 1, 1, 0), vgtDate(2024, 1, 1, 0)
+			case 0: // whole span of the stored timestamps (+- a unit)
+				from, to = vgtDate(2019, 1, 1, 0), vgtDate(2019, 1, 1, 0)
+				for i, a := range anchors {
+					if i == 0 || a.Before(from) {
+						from = a
+					}
+					if i == 0 || a.After(to) {
+						to = a
+					}
+				}
+				from, to = vgtAdd(vgtTrunc(from, unit), unit, -1), vgtAdd(vgtTrunc(to, unit), unit, 2)
 			default:
 				from = vgtTrunc(vgtGenStamp(t, l+".from", anchors), unit)
 				if rapid.Bool().Draw(t, l+".short") {
